@@ -45,6 +45,37 @@ R5_EXCEPTIONS = {
 }
 
 
+def _declared_value(prog, ce, mod, expr, depth=0):
+    """Constant value of a declared list; `<function>.guaranteed` (the attribute the documenting decorators store on
+    the function they wrap) is resolved to that function's own declaration."""
+    try:
+        return ce.eval_in_module(mod, expr)
+    except NotConstant:
+        if depth > 4:
+            raise
+        if isinstance(expr, ast.BinOp) and isinstance(expr.op, ast.Add):
+            left = _declared_value(prog, ce, mod, expr.left, depth + 1)
+            right = _declared_value(prog, ce, mod, expr.right, depth + 1)
+            return list(left or []) + list(right or [])
+        if isinstance(expr, ast.Attribute) and expr.attr in ("guaranteed", "ifpresent", "required", "optional"):
+            r = prog.resolve_expr(None, mod, expr.value)
+            if r and r[0] == "func":
+                other = r[1]
+                for d in other.decorators:
+                    if not isinstance(d, ast.Call):
+                        continue
+                    rd = prog.resolve_expr(None, other.module, d.func)
+                    if not (rd and rd[0] == "func" and rd[1].name in DOC_DECORATORS
+                            and rd[1].module.name == "iodata.docstrings"):
+                        continue
+                    bound, _extra, _ok = bind_call(d, rd[1])
+                    if expr.attr in bound:
+                        val = _declared_value(prog, ce, other.module, bound[expr.attr], depth + 1)
+                        return list(val) if val is not None else []
+                    return []
+        raise
+
+
 def declared_lists(prog, ce):
     """All decorator sites: (module, func, decorator name, {listname: [names]}, call node)."""
     out = []
@@ -66,7 +97,7 @@ def declared_lists(prog, ce):
                 for pname in ("guaranteed", "ifpresent", "required", "optional"):
                     if pname in bound:
                         try:
-                            val = ce.eval_in_module(mod, bound[pname])
+                            val = _declared_value(prog, ce, mod, bound[pname])
                         except NotConstant as exc:
                             raise AnalysisError(f"{mod.relpath}:{d.lineno}: declared list `{pname}` is not a constant: {exc}") from exc
                         lists[pname] = list(val) if val is not None else []
